@@ -616,6 +616,31 @@ def cache_key_complete(L: Ledger, rule: str, f: Func):
 
                     if mentions_D(V):
                         continue  # the new value is computed from the old one (running total): an accumulator
+                    # ... and so is a table some *other* store or in-place update in the loop derives from its old entry
+                    # (first occurrence stores a fresh value, later ones widen / extend it)
+                    def _other_updates():
+                        for st2 in walk_shallow(lp):
+                            if isinstance(st2, ast.Assign) and st2 is not st and any(isinstance(t2, ast.Subscript) and is_name(t2.value, D) for t2 in st2.targets) and mentions_D(st2.value):
+                                return True
+                            if isinstance(st2, ast.AugAssign) and isinstance(st2.target, ast.Subscript) and is_name(st2.target.value, D):
+                                return True
+                            if isinstance(st2, ast.Call) and isinstance(st2.func, ast.Attribute) and st2.func.attr in ("append", "add", "update", "extend", "insert") and isinstance(st2.func.value, ast.Subscript | ast.Call) and any(isinstance(x, ast.Name) and x.id == D for x in ast.walk(st2.func.value)):
+                                return True
+                        # entries taken out into a local and edited in place (span = D.get(k); span[0] = ...)
+                        aliases = {nm for nm, vals in assigned_in_loop.items() if any(mentions_D(v_) for v_ in vals)}
+                        for st2 in walk_shallow(lp):
+                            if isinstance(st2, ast.Assign | ast.AugAssign):
+                                tg2 = st2.targets if isinstance(st2, ast.Assign) else [st2.target]
+                                if any(isinstance(t2, ast.Subscript | ast.Attribute) and isinstance(t2.value, ast.Name) and t2.value.id in aliases for t2 in tg2):
+                                    return True
+                            if isinstance(st2, ast.Call) and isinstance(st2.func, ast.Attribute) and isinstance(st2.func.value, ast.Name) and st2.func.value.id in aliases and st2.func.attr in ("append", "add", "update", "extend", "insert", "pop", "remove", "sort", "reverse"):
+                                return True
+                        return False
+
+                    if _other_updates():
+                        continue
+                    if isinstance(V, ast.Name) and V.id in loop_vars:
+                        continue  # the item itself is registered under the key (grouping / first-wins table), nothing is memoised
                     n += 1
                     kin, vin = inputs(K), inputs(V)
                     # a value input is covered when it (or a prefix path of it) is a key input
